@@ -251,6 +251,14 @@ def T2c(n=2):
     return s
 
 
+def T1d(n=2, same_names=False):
+    """T1 whose usage pattern has two devices (optionally two distinct devices carrying the same display name)"""
+    s = T1(n)
+    s["devices"]["dev2"] = {"name": s["devices"]["dev"].get("name", "dev")} if same_names else {}
+    s["patterns"]["up"]["devices"] = ["dev", "dev2"]
+    return s
+
+
 def T1e(n=2):
     """T1 with a second, empty step (no job) in the journey"""
     s = T1(n)
@@ -335,7 +343,7 @@ def T9(n=2):
     return s
 
 
-SKELETONS = {"T9": T9, "T2c": T2c, "T1e": T1e, "T1": T1, "T2": T2, "T3": T3, "T4": T4, "T5": T5, "T7": T7, "T8": T8}
+SKELETONS = {"T9": T9, "T2c": T2c, "T1e": T1e, "T1d": T1d, "T1": T1, "T2": T2, "T3": T3, "T4": T4, "T5": T5, "T7": T7, "T8": T8}
 
 
 def spec_copy(spec):
